@@ -136,6 +136,9 @@ def cipher_section_reads(ctx, report, c, cons, lists):
         used_by_compose.add('cipher_suites')
     info = lists.get('cipher_suites', {'source': '', 'reads': set()})
     reads = set(info.get('reads', set()))
+    if id(ctx) in CONSUMED:
+        # decided by difference on the evaluated function: the attribute is consumed when changing it changes the string
+        reads = set(CONSUMED[id(ctx)])
     for a in sorted(used_by_compose):
         report.count('C15.R2')
         if a not in reads and a != '*':
@@ -203,6 +206,9 @@ def collect_lists(fnode):
 
 # ---- tabulated JA3 ---------------------------------------------------------------------------------------------------
 
+CONSUMED = {}
+
+
 def ja3_tabulation(ctx, report, f, cons, spec):
     """ja3() evaluated statement by statement (sa.miniexec) on abstract client hellos - every combination of: GREASE /
     unknown / known cipher suites, extension lists with and without supported_groups and ec_point_formats in both orders,
@@ -245,6 +251,15 @@ def ja3_tabulation(ctx, report, f, cons, spec):
         if d == 'isinstance' and len(n.args) == 2:
             v = ev.ev(n.args[0])
             names = [x.strip() for x in ast.unparse(n.args[1]).strip('()').split(',')]
+            try:
+                # the class may arrive through a parameter or a local: use what the expression evaluates to
+                t = ev.ev(n.args[1])
+                ts = t if isinstance(t, (tuple, list)) else (t,)
+                resolved = [getattr(getattr(x, 'info', None), 'name', None) for x in ts]
+                if all(resolved):
+                    names = resolved
+            except Unsupported:
+                pass
             return getattr(v, '_cls', None) in names
         return NotImplemented
 
@@ -266,6 +281,11 @@ def ja3_tabulation(ctx, report, f, cons, spec):
     section_names = [sec['name'] for sec in spec['sections']]
     bad = {}
     n = 0
+    # helper methods of the class (a shared GREASE filter, a method collecting the extension sections ...) are evaluated from
+    # their own statements
+    from ..miniexec import class_call_hook
+    chook = class_call_hook(f.cls, hook, ctx.model)
+    cnames = chook.name_hook_for(f.module, names)
     try:
         for version in (0x0303, 0x0301, 0x0300):
             for (cn, ciphers, cwant), (gn, groups, gwant), (fn, formats, fwant), (ln, layout) in itertools.product(cipher_sets, group_sets, format_sets, layouts):
@@ -293,7 +313,7 @@ def ja3_tabulation(ctx, report, f, cons, spec):
                         ext_want.append(EXT[kind])
                 me = Obj(protocol_version=Obj(compose=lambda v=version: v.to_bytes(2, 'big')), cipher_suites=list(ciphers), extensions=exts,
                          fallback_scsv=False, empty_renegotiation_info_scsv=False)
-                got = Evaluator({'self': me}, hook, names).function(f.node)
+                got = Evaluator({'self': me}, chook, cnames).function(f.node)
                 want = [str(version), '-'.join(map(str, cwant)), '-'.join(map(str, ext_want)), '-'.join(map(str, grp_want)), '-'.join(map(str, fmt_want))]
                 if not isinstance(got, str):
                     bad.setdefault('sections', 'ja3 returns %r' % (got,))
@@ -315,5 +335,21 @@ def ja3_tabulation(ctx, report, f, cons, spec):
         return True
     for src, detail in sorted(bad.items()):
         report.add('C15.R1', cons + '@section[%s]' % src, detail)
+    # which attributes the string depends on, by difference: the same hello with one attribute changed
+    try:
+        def value_of(**over):
+            exts = ExtList()
+            attrs = dict(protocol_version=Obj(compose=lambda: (0x0303).to_bytes(2, 'big')), cipher_suites=[member(4865)], extensions=exts,
+                         fallback_scsv=False, empty_renegotiation_info_scsv=False)
+            attrs.update(over)
+            return Evaluator({'self': Obj(**attrs)}, chook, cnames).function(f.node)
+        base = value_of()
+        consumed = set()
+        for attr, other in (('cipher_suites', [member(4865), member(49199)]), ('fallback_scsv', True), ('empty_renegotiation_info_scsv', True)):
+            if value_of(**{attr: other}) != base:
+                consumed.add(attr)
+        CONSUMED[id(ctx)] = consumed
+    except (Unsupported, Raised):
+        CONSUMED.pop(id(ctx), None)
     report.sample({'rule': 'C15.R1', 'tabulated_hellos': n, 'dimensions': 'cipher suites x groups x point formats (plain / GREASE+unknown) x 7 extension layouts, 3 versions'})
     return True
